@@ -52,6 +52,8 @@ def interactions(ck, mod, tier, parsed):
                     ck.inconc('%s bead %d: %s' % (which, bead, e)); continue
                 # domain: away from the singular set: all radicals > 0 (in definitions), path condition
                 domain = pc
+                if smt.check(smt.purify(A.definitions() + pc), 20)[0] == 'unsat':
+                    ck.notes.append('%s bead %d path %d lies entirely in the excluded singular set (e.g. zero-length vector branch of normalize()); skipped' % (which, bead, pi)); continue
                 for k in range(3):
                     tot = None
                     for (b1, b2), syms in V.items():
